@@ -60,7 +60,7 @@ def body():
         "DUAL0 / DUAL1 exact tables are replayed on whole grids (default options); segments are covered by the relation clauses and by C09",
     )
     quick = chk.tier == "quick"
-    meshes = bary_obligations(chk, "c10", ["OCT", "TET", "STRIP8"], 1 if quick else 2, 1)
+    meshes = bary_obligations(chk, "c10", ["OCT", "TET", "STRIP8", "STRIPW"], 1 if quick else 2, 1)
     if quick:
         meshes = [m for k, m in enumerate(meshes) if len(m.h["sub"]) in (4, 8) or k % 3 == 0]
     else:
@@ -241,6 +241,43 @@ def body():
                 sc = max(1e-3, np.abs(W).max())
                 if A.shape != W.shape or np.abs(A - W).max() > TOL * sc:
                     fail("mixed_mass:%s" % name, "%s deviates by %.3g from the integral of the product of the two bases" % (name, np.abs(A - W).max() / sc if A.shape == W.shape else float("nan")))
+            # ---- (d) Buffa-Christiansen spaces on open surfaces: conforming, and independent of the numbering
+            if m.h["manifold"] and not m.h["closed"] and m.n >= 3:
+                rwgA = api.function_space(g, "RWG", 0)
+                if rwgA.global_dof_count >= 2:
+                    order = list(range(m.n))[::-1]
+                    elB = np.array([np.roll(m.el[e], e % 3) for e in order])
+                    gB = api.Grid(m.xyz.T.copy(), elB.T.astype("uint32"))
+                    rwgB = api.function_space(gB, "RWG", 0)
+
+                    def edge_of(space, el):
+                        out = {}
+                        for e in np.flatnonzero(space.support):
+                            for i, (a, b2) in enumerate(((0, 1), (2, 0), (1, 2))):
+                                if space.local_multipliers[e, i] != 0:
+                                    out[int(space.local2global[e, i])] = frozenset((int(el[e][a]), int(el[e][b2])))
+                        return out
+
+                    eA, eB = edge_of(rwgA, m.el), edge_of(rwgB, elB)
+                    inv = {v: k for k, v in eB.items()}
+                    if sorted(eA.values(), key=sorted) != sorted(eB.values(), key=sorted):
+                        fail("bc:relabel:dofs", "RWG dof edges differ between two numberings of the same open mesh")
+                    else:
+                        perm = [inv[eA[d]] for d in range(rwgA.global_dof_count)]
+                        for kname in ("BC", "RBC"):
+                            try:
+                                sA = api.function_space(g, kname, 0)
+                                sB = api.function_space(gB, kname, 0)
+                            except Exception as exc:
+                                if "connected only by a vertex" in str(exc):
+                                    continue
+                                raise
+                            GA = np.abs(np.asarray(sparse.identity(sA, sA, sA).weak_form().to_dense()))
+                            GB = np.abs(np.asarray(sparse.identity(sB, sB, sB).weak_form().to_dense()))[np.ix_(perm, perm)]
+                            chk.count((m.id, kname, "relabel"), True)
+                            if np.abs(GA - GB).max() > 1e-10 * max(1e-3, GA.max()):
+                                fail("bc:relabel:%s" % kname, "the Gram matrix of the %s space changes by %.3g when elements are renumbered and locally rotated" % (kname, np.abs(GA - GB).max() / GA.max()))
+                            rd.check_bary_conformity(sA, lambda a, d: fail("bc:%s:%s" % (kname, a), d), kname, kname)
             if mi < 3:
                 chk.sample({"mesh": label, "element_1": {k: m.elem[0][k] for k in ("nodes", "dual1")}})
         except Exception as exc:
